@@ -11,12 +11,29 @@
  * Part 2 (generated space, both transports): version x type x all option bits
  * x meta x declared/actual header length x payload length {0,n-1,n,n+1} x each
  * checksum right/wrong.
+ * Part 3 (the line itself, serial): the same corpus, faults on the SLIP
+ * *stream* (every single-bit flip, thorough: every two-bit flip; every cut;
+ * every lost or duplicated octet) -- these also break the framing (escape
+ * violations, lost and spurious END octets), so the receiver sees channel-level
+ * failures and fragments; played as a session of the documented serving loop
+ * (regp_loop.h: one RPMaybeFrame reused, regp_process/regp_free after every
+ * regp_recv) after a good request or from indeterminate contents, on a heap
+ * and on a pool allocator: nothing is executed, nothing acknowledged.
+ * Part 4 (the reply cannot be sent): faulted requests x sink failure at every
+ * octet of the reply x error codes: still never executed nor acknowledged.
+ * Part 5 (sessions): every sequence of 2..3 (thorough: 4) receptions out of
+ * good requests, corrupted frames of every class and channel-level failures.
+ * Part 6 (what the library itself puts on a serial line): every frame kind the
+ * library emits (requests, responses to every backend verdict), then every
+ * single-bit flip, two-bit flip in octets >= 2 and truncation: a frame that
+ * left without the checksum the fault needs to be noticed is a violation.
  * Oracle: the receiver's verdict is in the reference verdict set of
  * regp_ref.h; a frame whose reference verdict is not "valid" is never
  * executed, never acknowledged, and answered as the statement prescribes.
  */
 #include "mc.h"
 #include "regp_ref.h"
+#include "regp_loop.h"
 
 #define BLOCKSIZE 256
 
@@ -69,72 +86,86 @@ vname(unsigned v)
 }
 
 static long n_detected[6], n_valid, n_skipped_valid;
-static int g_escape_mode; /* 0: skip+count reference-valid corrupted frames; 1: skip silently (bursts, case A); 2: run ONLY those (bursts, case B) */
+/* the caller's RPMaybeFrame: one object, reused by every reception of a case
+ * (set to the indeterminate-contents stand-in when a case starts) */
+static RPMaybeFrame g_mf;
+static int g_escape_mode; /* 0: skip+count reference-valid corrupted frames; 1: skip silently (bursts, case A); 2: run ONLY those (bursts, case B);
+                            * 3: such a frame is a violation (1-/2-bit flips of frames the library emitted itself) */
 static long n_escaped;
 
-/* Feed raw frame X (n octets) over the given transport; check the receiver
- * against the reference.  `fault` describes the case for the failure text;
- * corrupted=true demands that the frame is not taken as valid unless the
- * reference itself finds it valid (then it is counted and skipped). */
-static bool
-run_frame(bool tcp, const unsigned char *X, size_t n, bool corrupted, const char *fault)
+/* the reference verdict set for raw frame X on the given transport */
+static unsigned
+frame_vset(bool tcp, const unsigned char *X, size_t n, struct rframe *rf)
 {
-    unsigned char wire[2 * 600 + 16], scratch[DRV_WIRE];
-    struct rframe rf;
-    unsigned vset = rr_verdict(X, n, &rf);
-    if (n == 0 && tcp)
-        return true; /* a zero length prefix is a channel matter, not a frame */
+    unsigned vset = rr_verdict(X, n, rf);
     /* transport-mandated option bits: the document could be read as making a
      * violation a header encoding error; the receiver may take either view */
     if (vset & RV_OK) {
-        const bool mand_ok = tcp ? !(rf.options & (RO_HDCRC | RO_PLCRC))
-                                 : ((rf.options & RO_HDCRC) && (((rf.options & RO_PLCRC) != 0) == (rf.plen != 0)));
+        const bool mand_ok = tcp ? !(rf->options & (RO_HDCRC | RO_PLCRC))
+                                 : ((rf->options & RO_HDCRC) && (((rf->options & RO_PLCRC) != 0) == (rf->plen != 0)));
         if (!mand_ok)
             vset |= RV_BADHDR;
     }
-    if (corrupted && g_escape_mode == 2 && !(vset & RV_OK))
-        return true;
-    if (corrupted && (vset & RV_OK) && g_escape_mode != 2) {
-        if (g_escape_mode == 0)
-            n_skipped_valid++;
-        if (getenv("C07_DEBUG")) {
-            fprintf(stderr, "SKIPPED-VALID %s: %s len=%zu:", mc.desc, fault, n);
-            for (size_t i = 0; i < n; ++i)
-                fprintf(stderr, " %02x", X[i]);
-            fprintf(stderr, "\n");
-        }
-        return true; /* undetectable by the protocol itself */
+    return vset;
+}
+
+/* decode the reply octets D.out[from, to) into frames; with `lenient` an
+ * incomplete frame at the end (the sink failed) is left out.  Returns the
+ * number of frames, -1 if the octets are not a sequence of frames, -2 if one of
+ * them is not a valid frame. */
+static int
+decode_replies(bool tcp, size_t from, size_t to, bool lenient, struct rframe *reply, unsigned char *scratch, bool *acked)
+{
+    struct rr_frames fr;
+    int nfr = rr_unframe(tcp, D.out + from, to - from, scratch, &fr);
+    while (nfr < 0 && lenient && to > from)
+        nfr = rr_unframe(tcp, D.out + from, --to - from, scratch, &fr);
+    *acked = false;
+    for (int i = 0; i < nfr; ++i) {
+        const unsigned rv = rr_verdict(scratch + fr.off[i], fr.len[i], &reply[i]);
+        if (!rr_reply_ok(rv, &reply[i]))
+            return -2 - i;
+        if ((reply[i].type == RT_READ_RESP || reply[i].type == RT_WRITE_RESP) && reply[i].meta == 0)
+            *acked = true;
     }
-    const size_t wn = tcp ? rr_lenprefix(wire, X, n) : rr_slip(wire, X, n);
-    const bool m16 = (rf.options & RO_W16) != 0; /* attach matching memory: execution must be prevented by the verdict alone */
-    drv_reset(&D, m16);
-    D.p.ep.type = tcp ? RP_EP_TCP : RP_EP_SERIAL;
-    drv_feed(&D, wire, wn);
-    RPMaybeFrame mf;
-    memset(&mf, 0, sizeof mf);
-    const int rrc = regp_recv(&D.p, &mf);
-    const int errid = mf.error.id;
-    const size_t reply_after_recv = D.outlen;
-    int prc = 0;
-    if (rrc >= 0)
-        prc = regp_process(&D.p, &mf);
-    if (mf.frame != NULL)
-        regp_free(&D.p, mf.frame);
-    mc_trans(3);
+    return nfr;
+}
+
+/* Judge one round of the serving loop in which the channel delivered raw frame
+ * X intact (rf/vset: the reference's reading of X).  sink_failed: the sink
+ * refused octets of the reply in this round. */
+static bool
+judge(bool tcp, const struct rframe *rf, unsigned vset, const struct lp_result *r, bool sink_failed, const char *fault)
+{
+    unsigned char scratch[DRV_WIRE];
+    const int rrc = r->rrc, errid = r->errid;
     const unsigned iv = impl_verdict(errid);
-    if (mc.verbose && mc.active) {
-        mc_log("%s: recv rc=%d error.id=%d (%s) process rc=%d calls=%d reply=%zu octets; reference verdict set=%02x", fault, rrc, errid, vname(iv), prc,
-               D.ncalls, D.outlen, vset);
-        mc_log_hex("frame", X, n);
-        mc_log_hex("reply", D.out, D.outlen);
-    }
-    if (corrupted && g_escape_mode == 2) {
-        n_escaped++;
-        if (iv == RV_OK) {
-            mc_fail("C07/burst-escapes-checksum", "%s: the corrupted frame is valid under doc/regp.txt's checksum layout and was accepted%s", fault,
-                    D.ncalls ? " and executed" : "");
+    if (sink_failed) {
+        /* The statement's "is never executed and never acknowledged" does not
+         * depend on the reply getting through; "the corresponding message is
+         * sent" cannot hold.  A receiver whose transmission failed may report
+         * that through its return value alone (error.id 0 with rc < 0). */
+        if (r->calls != 0) {
+            mc_fail("C07/never-executed", "%s: the reply could not be sent (recv rc=%d error.id=%d) and the frame caused %d memory accesses", fault, rrc, errid, r->calls);
             return false;
         }
+        struct rframe reply[8];
+        bool acked;
+        (void)decode_replies(tcp, r->out0, r->out1, true, reply, scratch, &acked);
+        if (acked) {
+            mc_fail("C07/never-acknowledged", "%s: the frame was acknowledged", fault);
+            return false;
+        }
+        if (!(vset & RV_OK) && ((iv == RV_OK && rrc >= 0) || (iv > RV_OK && !(iv & vset)))) {
+            mc_fail("C07/verdict-class", "%s: receiver says %s (rc=%d error.id=%d); an independent reading of the document says %s%s", fault, vname(iv), rrc, errid,
+                    vname(vset & -vset), (vset & (vset - 1)) ? " (or alternatives)" : "");
+            return false;
+        }
+        if (!drv_balanced(&D)) {
+            mc_fail("C07/ledger", "%s: allocator ledger unbalanced", fault);
+            return false;
+        }
+        n_detected[4]++;
         return true;
     }
     if (rrc < 0 && iv <= RV_OK) {
@@ -155,18 +186,12 @@ run_frame(bool tcp, const unsigned char *X, size_t n, bool corrupted, const char
         return false;
     }
     /* decode what was sent back */
-    struct rr_frames fr;
-    const int nfr = rr_unframe(tcp, D.out, D.outlen, scratch, &fr);
     struct rframe reply[8];
     bool acked = false;
-    for (int i = 0; i < nfr; ++i) {
-        const unsigned rv = rr_verdict(scratch + fr.off[i], fr.len[i], &reply[i]);
-        if (!rr_reply_ok(rv, &reply[i])) {
-            mc_fail("C07/reply-well-formed", "%s: reply frame %d is not a valid frame", fault, i);
-            return false;
-        }
-        if ((reply[i].type == RT_READ_RESP || reply[i].type == RT_WRITE_RESP) && reply[i].meta == 0)
-            acked = true;
+    const int nfr = decode_replies(tcp, r->out0, r->out1, false, reply, scratch, &acked);
+    if (nfr <= -2) {
+        mc_fail("C07/reply-well-formed", "%s: reply frame %d is not a valid frame", fault, -2 - nfr);
+        return false;
     }
     if (nfr < 0) {
         mc_fail("C07/reply-well-formed", "%s: the reply octets are not a sequence of frames", fault);
@@ -177,8 +202,8 @@ run_frame(bool tcp, const unsigned char *X, size_t n, bool corrupted, const char
         return true; /* executing valid frames is C06's subject */
     }
     n_detected[iv == RV_BADHDR ? 0 : iv == RV_BADHDRCRC ? 1 : iv == RV_BADSIZE ? 2 : 3]++;
-    if (D.ncalls != 0) {
-        mc_fail("C07/never-executed", "%s: a frame classified %s caused %d memory accesses", fault, vname(iv), D.ncalls);
+    if (r->calls != 0) {
+        mc_fail("C07/never-executed", "%s: a frame classified %s caused %d memory accesses", fault, vname(iv), r->calls);
         return false;
     }
     if (acked) {
@@ -187,23 +212,23 @@ run_frame(bool tcp, const unsigned char *X, size_t n, bool corrupted, const char
     }
     if (iv == RV_BADHDR || iv == RV_BADHDRCRC) {
         const unsigned want = iv == RV_BADHDR ? 1 : 2;
-        (void)reply_after_recv; /* whether reception or processing sends it is not part of the statement */
+        /* whether reception or processing sends it is not part of the statement */
         if (nfr != 1 || reply[0].type != RT_META || reply[0].meta != want) {
             mc_fail("C07/header-fault-meta-reply", "%s: %s must be answered by reception with exactly one meta message %u; got %d frames (first: type %u code %u)", fault,
                     vname(iv), want, nfr, nfr > 0 ? reply[0].type : 99, nfr > 0 ? reply[0].meta : 99);
             return false;
         }
     } else {
-        const bool isreq = rf.type == RT_READ_REQ || rf.type == RT_WRITE_REQ;
+        const bool isreq = rf->type == RT_READ_REQ || rf->type == RT_WRITE_REQ;
         if (!isreq) {
-            if (D.outlen != 0) {
-                mc_fail("C07/payload-fault-reply", "%s: a non-request with a payload fault was answered (%zu octets)", fault, D.outlen);
+            if (r->out1 != r->out0) {
+                mc_fail("C07/payload-fault-reply", "%s: a non-request with a payload fault was answered (%zu octets)", fault, r->out1 - r->out0);
                 return false;
             }
         } else {
             const unsigned want = iv == RV_BADSIZE ? 3 : 2;
-            if (nfr != 1 || reply[0].type != (rf.type == RT_READ_REQ ? RT_READ_RESP : RT_WRITE_RESP) || reply[0].meta != want
-                || reply[0].seq != rf.seq || reply[0].addr != rf.addr || reply[0].plen != 0) {
+            if (nfr != 1 || reply[0].type != (rf->type == RT_READ_REQ ? RT_READ_RESP : RT_WRITE_RESP) || reply[0].meta != want
+                || reply[0].seq != rf->seq || reply[0].addr != rf->addr || reply[0].plen != 0) {
                 mc_fail("C07/payload-fault-reply", "%s: a request classified %s must be answered with one response code %u echoing seq/address; got %d frames (first: type %u code %u)",
                         fault, vname(iv), want, nfr, nfr > 0 ? reply[0].type : 99, nfr > 0 ? reply[0].meta : 99);
                 return false;
@@ -215,6 +240,66 @@ run_frame(bool tcp, const unsigned char *X, size_t n, bool corrupted, const char
         return false;
     }
     return true;
+}
+
+/* Feed raw frame X (n octets) over the given transport; check the receiver
+ * against the reference.  `fault` describes the case for the failure text;
+ * corrupted=true demands that the frame is not taken as valid unless the
+ * reference itself finds it valid (then it is counted and skipped). */
+static bool
+run_frame(bool tcp, const unsigned char *X, size_t n, bool corrupted, const char *fault)
+{
+    unsigned char wire[2 * 600 + 16];
+    struct rframe rf;
+    const unsigned vset = frame_vset(tcp, X, n, &rf);
+    if (n == 0 && tcp)
+        return true; /* a zero length prefix is a channel matter, not a frame */
+    if (corrupted && g_escape_mode == 2 && !(vset & RV_OK))
+        return true;
+    if (corrupted && (vset & RV_OK) && g_escape_mode == 3) {
+        mc_log_hex("frame", X, n);
+        mc_fail("C07/serial-frame-protected",
+                "%s: the damaged frame is a valid frame by doc/regp.txt (options %x, %zu payload octets): the frame was put on the serial line without the checksum that covers the damaged octets",
+                fault, rf.options, rf.plen);
+        return false;
+    }
+    if (corrupted && (vset & RV_OK) && g_escape_mode != 2) {
+        if (g_escape_mode == 0)
+            n_skipped_valid++;
+        if (getenv("C07_DEBUG")) {
+            fprintf(stderr, "SKIPPED-VALID %s: %s len=%zu:", mc.desc, fault, n);
+            for (size_t i = 0; i < n; ++i)
+                fprintf(stderr, " %02x", X[i]);
+            fprintf(stderr, "\n");
+        }
+        return true; /* undetectable by the protocol itself */
+    }
+    const size_t wn = tcp ? rr_lenprefix(wire, X, n) : rr_slip(wire, X, n);
+    const bool m16 = (rf.options & RO_W16) != 0; /* attach matching memory: execution must be prevented by the verdict alone */
+    drv_reset(&D, m16);
+    D.p.ep.type = tcp ? RP_EP_TCP : RP_EP_SERIAL;
+    drv_feed(&D, wire, wn);
+    /* one round of the documented serving loop, the caller's RPMaybeFrame reused */
+    struct lp_result r;
+    lp_round(&D, &g_mf, &r);
+    mc_trans(3);
+    const unsigned iv = impl_verdict(r.errid);
+    if (mc.verbose && mc.active) {
+        mc_log("%s: recv rc=%d error.id=%d (%s) process rc=%d calls=%d reply=%zu octets; reference verdict set=%02x", fault, r.rrc, r.errid, vname(iv), r.prc,
+               r.calls, D.outlen, vset);
+        mc_log_hex("frame", X, n);
+        mc_log_hex("reply", D.out, D.outlen);
+    }
+    if (corrupted && g_escape_mode == 2) {
+        n_escaped++;
+        if (iv == RV_OK) {
+            mc_fail("C07/burst-escapes-checksum", "%s: the corrupted frame is valid under doc/regp.txt's checksum layout and was accepted%s", fault,
+                    r.calls ? " and executed" : "");
+            return false;
+        }
+        return true;
+    }
+    return judge(tcp, &rf, vset, &r, false, fault);
 }
 
 /* ---- corpus ------------------------------------------------------------------------ */
@@ -296,6 +381,8 @@ reset_counts(void)
 {
     memset(n_detected, 0, sizeof n_detected);
     n_valid = 0;
+    /* a case starts like the documented loop does: `RPMaybeFrame mf;` */
+    lp_decoy(&g_mf, true);
 }
 
 static void
@@ -403,6 +490,9 @@ static void
 part2(void)
 {
     static const unsigned versions[] = { 0, 1, 15 };
+    static const uint32_t BS[] = { 0, 1, 2, 0x7f, 0x80, 0x81, 0x82, 0xff, 0x100, 0x101, 0x102, 0x7fff, 0x8000, 0x8001, 0x8002, 0xffff, 0x10000, 0x10001, 0x10002,
+                                   0x7fffffffu, 0x80000000u, 0x80000001u, 0x80000002u, 0x80000003u, 0xfffffffeu, 0xffffffffu };
+    enum { NBS = sizeof BS / sizeof *BS };
     char fd[200];
     for (int tcp = 0; tcp < 2; ++tcp)
         for (unsigned vi = 0; vi < 3; ++vi)
@@ -416,19 +506,27 @@ part2(void)
                     for (unsigned meta = 0; meta < 16 && ok; ++meta) {
                         if (versions[vi] != 0 && meta > 1)
                             continue;
-                        for (unsigned bi = 0; bi < 8 && ok; ++bi)
-                            for (int dl = -1; dl <= 1 && ok; ++dl)
+                        for (unsigned bi = 0; bi < NBS && ok; ++bi)
+                            for (int dl = -1; dl <= 7 && ok; ++dl)
                                 for (int brk = 0; brk < 4 && ok; ++brk) {
-                                    /* block sizes 0..2 and sizes whose octet count wraps in 32 bits */
-                                    static const uint32_t BS[8] = { 0, 1, 2, 0x80000000u, 0x80000001u, 0x80000002u, 0xffffffffu, 0x7fffffffu };
+                                    /* block sizes 0..2 with payload lengths n-1, n, n+1; and sizes straddling
+                                     * 2^7, 2^8, 2^15, 2^16, 2^31, 2^32 (whose octet count, or the size itself,
+                                     * wraps in 8, 16 or 32 bits) with every payload length 0..7 */
                                     const uint32_t bs = BS[bi];
                                     const size_t ws = (opt & RO_W16) ? 2 : 1;
                                     const bool declares_payload = !(type == RT_READ_REQ || type == RT_META);
-                                    /* for the huge sizes the payload carries what a 32-bit product would announce */
-                                    const long want = declares_payload ? (long)(uint32_t)(bs * (uint32_t)ws) : 0;
-                                    if (bi >= 3 && (want > 8 || !declares_payload))
-                                        continue;
-                                    const long plen = want + dl;
+                                    long want, plen;
+                                    if (bi < 3) {
+                                        if (dl > 1)
+                                            continue;
+                                        want = declares_payload ? (long)(bs * ws) : 0;
+                                        plen = want + dl;
+                                    } else {
+                                        if (dl < 0 || !declares_payload)
+                                            continue;
+                                        want = (long)(uint32_t)(bs * (uint32_t)ws); /* what a 32-bit product would announce */
+                                        plen = dl;
+                                    }
                                     if (plen < 0)
                                         continue;
                                     if ((brk & 1) && !(opt & RO_HDCRC))
@@ -465,6 +563,610 @@ part2(void)
                 }
 }
 
+
+/* ---- part 3: faults on the line (the SLIP stream), played as sessions --------------------- */
+static long n_wire_judged, n_wire_undetectable;
+
+/* a good write request of one word for memory of the given width */
+static size_t
+good_request(bool tcp, bool m16, unsigned char *wire)
+{
+    static const unsigned char pl[2] = { 0x5a, 0xa5 };
+    unsigned char raw[32];
+    struct rframe f;
+    memset(&f, 0, sizeof f);
+    f.type = RT_WRITE_REQ;
+    f.options = (m16 ? RO_W16 : 0) | (tcp ? 0 : RO_HDCRC | RO_PLCRC);
+    f.seq = 0x7001;
+    f.addr = 0x00000900;
+    f.bsize = 1;
+    f.payload = pl;
+    f.plen = m16 ? 2 : 1;
+    const size_t rn = rr_build(raw, &f, false, false);
+    return tcp ? rr_lenprefix(wire, raw, rn) : rr_slip(wire, raw, rn);
+}
+
+/* start a session on a fresh instance: mode bit 0 = a good request was served
+ * before (else the RPMaybeFrame has its indeterminate first contents), bit 1 =
+ * pool allocator */
+static int g_srcmode = DRV_SRC_OCTET;
+static const char *SRCNAME[] = { "chunk source", "octet source", "chunk source with getbuffer" };
+
+static void
+session_start(bool tcp, bool m16, int mode)
+{
+    drv_init_ex(&D, tcp, m16, BLOCKSIZE, g_srcmode);
+    if (mode & 2)
+        lp_use_pool(&D, 0);
+    lp_decoy(&g_mf, m16);
+    if (mode & 1) {
+        unsigned char w[64];
+        struct lp_result r;
+        drv_feed(&D, w, good_request(tcp, m16, w));
+        lp_round(&D, &g_mf, &r);
+        mc_trans(3);
+        if (mc.verbose && mc.active)
+            mc_log("prelude: good write request: recv rc=%d error.id=%d process rc=%d calls=%d reply=%zu octets", r.rrc, r.errid, r.prc, r.calls, D.outlen);
+        D.outlen = 0;
+        D.ncalls = 0;
+    }
+}
+
+static const char *SMODE[4] = { "RPMaybeFrame indeterminate, heap allocator", "after a served request, heap allocator", "RPMaybeFrame indeterminate, pool allocator",
+                                "after a served request, pool allocator" };
+
+/* the damaged stream w is all the line delivers; the loop runs until it is used up */
+static bool
+run_wire(bool m16, int mode, const unsigned char *w, size_t n, const char *fault)
+{
+    if (lp_slip_may_be_valid(w, n)) {
+        n_wire_undetectable++;
+        if (mc.verbose && mc.active)
+            mc_log("%s: not judged, a reading of the damaged stream holds a valid frame", fault);
+        return true; /* some reading of the damaged stream holds a valid frame: undetectable in principle */
+    }
+    session_start(false, m16, mode);
+    drv_feed(&D, w, n);
+    int rounds = 0, calls = 0;
+    struct lp_result r;
+    do {
+        lp_round(&D, &g_mf, &r);
+        mc_trans(3);
+        calls += r.calls;
+        rounds++;
+        if (mc.verbose && mc.active)
+            mc_log("%s: round %d: recv rc=%d error.id=%d process rc=%d calls=%d, %zu of %zu line octets used, %zu reply octets so far", fault, rounds, r.rrc, r.errid, r.prc,
+                   r.calls, D.inpos, n, D.outlen);
+    } while (D.inpos < D.inlen && rounds < 16 && D.ncalls < DRV_MAXCALLS);
+    n_wire_judged++;
+    bool ok = true;
+    if (calls != 0) {
+        mc_fail("C07/never-executed", "%s: no reading of the damaged stream holds a valid frame, but %d memory accesses happened (%s addr=%08x size=%zu)", fault, calls,
+                D.call[0].write ? "write" : "read", D.call[0].addr, D.call[0].bsize);
+        ok = false;
+    } else {
+        unsigned char scratch[DRV_WIRE];
+        struct rframe reply[8];
+        bool acked;
+        const int nfr = decode_replies(false, 0, D.outlen, false, reply, scratch, &acked);
+        if (nfr < 0) {
+            mc_fail("C07/reply-well-formed", "%s: the reply octets are not a sequence of valid frames", fault);
+            ok = false;
+        } else if (acked) {
+            mc_fail("C07/never-acknowledged", "%s: no reading of the damaged stream holds a valid frame, but an acknowledgement was sent", fault);
+            ok = false;
+        } else if (!drv_balanced(&D)) {
+            mc_fail("C07/ledger", "%s: allocator ledger unbalanced (allocs=%d frees=%d live=%d foreign/double releases=%d)", fault, D.allocs, D.frees, D.nlive, D.bad_frees);
+            ok = false;
+        }
+    }
+    if (mc.verbose && mc.active)
+        mc_log_hex("line", w, n);
+    lp_release(&D);
+    return ok;
+}
+
+static void
+part3(void)
+{
+    char fd[160];
+    for (int ci = 0; ci < ncorpus; ++ci) {
+        const struct cframe *c = &corpus[ci];
+        unsigned char wire[160], x[164];
+        const size_t wn = rr_slip(wire, c->raw, c->n);
+        const size_t nbits = wn * 8;
+        const bool m16 = (c->raw[0] & RO_W16) != 0;
+        for (int sm = 0; sm < (g_th ? 3 : 1); ++sm)
+        for (int mode = 0; mode < 4; ++mode) {
+            g_srcmode = sm == 0 ? DRV_SRC_OCTET : sm == 1 ? DRV_SRC_CHUNK : DRV_SRC_CHUNK_GETBUFFER;
+            if (mc_case("line corpus#%d %s: every single-bit flip of the SLIP stream (%zu); %s, %s", ci, c->name, nbits, SMODE[mode], SRCNAME[g_srcmode])) {
+                n_wire_judged = n_wire_undetectable = 0;
+                bool ok = true;
+                for (size_t t = 0; t < nbits && ok; ++t) {
+                    memcpy(x, wire, wn);
+                    x[t >> 3] ^= (unsigned char)(1u << (t & 7));
+                    snprintf(fd, sizeof fd, "line bit %zu flipped", t);
+                    ok = run_wire(m16, mode, x, wn, fd);
+                }
+                mc_end(n_wire_judged > 0, !ok ? "failed" : n_wire_undetectable ? "line-faults-partly-undetectable" : "line-faults-rejected");
+            }
+            if (mc_case("line corpus#%d %s: every cut of the SLIP stream, every lost and every duplicated octet; %s, %s", ci, c->name, SMODE[mode], SRCNAME[g_srcmode])) {
+                n_wire_judged = n_wire_undetectable = 0;
+                bool ok = true;
+                for (size_t len = 0; len < wn && ok; ++len) {
+                    snprintf(fd, sizeof fd, "line goes dead after %zu octets", len);
+                    ok = run_wire(m16, mode, wire, len, fd);
+                }
+                for (size_t i = 0; i < wn && ok; ++i) {
+                    memcpy(x, wire, i);
+                    memcpy(x + i, wire + i + 1, wn - i - 1);
+                    snprintf(fd, sizeof fd, "line octet %zu lost", i);
+                    ok = run_wire(m16, mode, x, wn - 1, fd);
+                }
+                for (size_t i = 0; i < wn && ok; ++i) {
+                    memcpy(x, wire, i + 1);
+                    memcpy(x + i + 1, wire + i, wn - i);
+                    snprintf(fd, sizeof fd, "line octet %zu duplicated", i);
+                    ok = run_wire(m16, mode, x, wn + 1, fd);
+                }
+                mc_end(n_wire_judged > 0, !ok ? "failed" : n_wire_undetectable ? "line-faults-partly-undetectable" : "line-faults-rejected");
+            }
+            if (!g_th || !(mode & 1) || sm != 0)
+                continue;
+            /* thorough: every two-bit flip of the stream, after a served request */
+            for (size_t t1 = 0; t1 + 1 < nbits; ++t1) {
+                if (!mc_case("line corpus#%d %s: two-bit flips of the SLIP stream, first bit %zu; %s", ci, c->name, t1, SMODE[mode]))
+                    continue;
+                n_wire_judged = n_wire_undetectable = 0;
+                bool ok = true;
+                for (size_t t2 = t1 + 1; t2 < nbits && ok; ++t2) {
+                    memcpy(x, wire, wn);
+                    x[t1 >> 3] ^= (unsigned char)(1u << (t1 & 7));
+                    x[t2 >> 3] ^= (unsigned char)(1u << (t2 & 7));
+                    snprintf(fd, sizeof fd, "line bits %zu and %zu flipped", t1, t2);
+                    ok = run_wire(m16, mode, x, wn, fd);
+                }
+                mc_end(n_wire_judged > 0, !ok ? "failed" : n_wire_undetectable ? "line-faults-partly-undetectable" : "line-faults-rejected");
+            }
+        }
+    }
+    g_srcmode = DRV_SRC_OCTET;
+}
+
+/* ---- faulted requests for parts 4 and 5 ----------------------------------------------------- */
+enum { FK_HDCRC, FK_VERSION, FK_RESERVED, FK_TYPE, FK_META, FK_PLCRC, FK_LONG, FK_SHORT, FK_N };
+static const char *FKNAME[FK_N] = { "header checksum wrong", "version 1", "reserved option bit set", "unknown frame type", "meta field set", "payload checksum wrong",
+                                    "one stray payload octet", "one payload octet missing" };
+
+/* raw request (write of 2 words / read of 2 words) with one fault; 0 if the
+ * fault does not exist for this frame on this transport */
+static size_t
+faulted_request(bool tcp, bool write, bool m16, int fk, unsigned char *raw)
+{
+    static unsigned char pl[8] = { 0x11, 0xc0, 0x33, 0xdb, 0x55 };
+    struct rframe f, chk;
+    memset(&f, 0, sizeof f);
+    const size_t ws = m16 ? 2 : 1;
+    f.type = write ? RT_WRITE_REQ : RT_READ_REQ;
+    f.options = (m16 ? RO_W16 : 0) | (tcp ? 0 : RO_HDCRC | (write ? RO_PLCRC : 0));
+    f.seq = 0x4321;
+    f.addr = 0x00000a00;
+    f.bsize = 2;
+    f.payload = pl;
+    f.plen = write ? 2 * ws : 0;
+    bool bh = false, bp = false;
+    switch (fk) {
+    case FK_HDCRC: if (tcp) return 0; bh = true; break;
+    case FK_VERSION: f.version = 1; break;
+    case FK_RESERVED: f.options |= 8u; break;
+    case FK_TYPE: f.type = write ? 7 : 9; break;
+    case FK_META: f.meta = 3; break;
+    case FK_PLCRC: if (tcp || !write) return 0; bp = true; break;
+    case FK_LONG: f.plen += 1; break;
+    case FK_SHORT: if (!write) return 0; f.plen -= 1; break;
+    }
+    const size_t rn = rr_build(raw, &f, bh, bp);
+    if (frame_vset(tcp, raw, rn, &chk) & RV_OK)
+        mc_broken("faulted request (%s) is valid by the reference", FKNAME[fk]);
+    return rn;
+}
+
+/* ---- part 4: the reply to a faulted request cannot be sent ---------------------------------- */
+static void
+part4(void)
+{
+    static const int ERRS[] = { -EIO, -ENOMEM, -EPIPE }; /* not -EAGAIN/-EINTR: the endpoint layer retries those by contract */
+    char fd[200];
+    for (int tcp = 0; tcp < 2; ++tcp)
+        for (int write = 0; write < 2; ++write)
+            for (int m16 = 0; m16 < 2; ++m16)
+                for (int fk = 0; fk < FK_N; ++fk)
+                    for (int mode = 0; mode < 4; ++mode) {
+                        unsigned char raw[64], wire[160];
+                        const size_t rn = faulted_request(tcp, write, m16, fk, raw);
+                        if (rn == 0)
+                            continue;
+                        if (!mc_case("unsendable reply: %s %s%d request, %s; sink fails at reply octet 0..23 x errors {EIO, ENOMEM, EPIPE}; %s", tcp ? "tcp" : "serial",
+                                     write ? "write" : "read", m16 ? 16 : 8, FKNAME[fk], SMODE[mode]))
+                            continue;
+                        memset(n_detected, 0, sizeof n_detected);
+                        n_valid = 0;
+                        struct rframe rf;
+                        const unsigned vset = frame_vset(tcp, raw, rn, &rf);
+                        const size_t wn = tcp ? rr_lenprefix(wire, raw, rn) : rr_slip(wire, raw, rn);
+                        bool ok = true;
+                        long hits = 0;
+                        for (int at = 0; at < 24 && ok; ++at)
+                            for (int ei = 0; ei < 3 && ok; ++ei) {
+                                session_start(tcp, m16, mode);
+                                D.sink_err_at = at;
+                                D.sink_err = ERRS[ei];
+                                drv_feed(&D, wire, wn);
+                                struct lp_result r;
+                                lp_round(&D, &g_mf, &r);
+                                mc_trans(3);
+                                snprintf(fd, sizeof fd, "sink fails with %d at reply octet %d", ERRS[ei], at);
+                                if (mc.verbose && mc.active) {
+                                    mc_log("%s (%s): recv rc=%d error.id=%d process rc=%d calls=%d sent=%zu octets", fd, D.sink_err_hit ? "hit" : "not reached", r.rrc,
+                                           r.errid, r.prc, r.calls, D.outlen);
+                                    mc_log_hex("frame", raw, rn);
+                                }
+                                hits += D.sink_err_hit;
+                                ok = judge(tcp, &rf, vset, &r, D.sink_err_hit, fd);
+                                lp_release(&D);
+                            }
+                        mc_end(hits > 0, !ok ? "failed" : hits ? "reply-unsendable" : "sink-failure-not-reached");
+                    }
+}
+
+/* ---- part 5: sessions ----------------------------------------------------------------------- */
+enum { SK_GOOD, SK_BAD, SK_CHAN };
+struct sitem {
+    int kind;
+    char name[48];
+    unsigned char raw[64];
+    size_t rn;
+    unsigned char wire[760];
+    size_t wn;
+    long src_err_at;
+    int src_err;
+    bool alloc_fails; /* every allocation of the round is refused */
+};
+#define MAXSITEMS 24
+static struct sitem sitems[2][MAXSITEMS];
+static int nsitems[2];
+
+static void
+build_sitems(bool tcp)
+{
+    struct sitem *it = sitems[tcp];
+    int n = 0;
+    const bool m16 = true;
+    /* good requests */
+    it[n].kind = SK_GOOD;
+    snprintf(it[n].name, sizeof it[n].name, "good-write");
+    it[n].wn = good_request(tcp, m16, it[n].wire);
+    n++;
+    {
+        struct rframe f;
+        memset(&f, 0, sizeof f);
+        f.type = RT_READ_REQ;
+        f.options = RO_W16 | (tcp ? 0 : RO_HDCRC);
+        f.seq = 0x7002;
+        f.addr = 0x00000910;
+        f.bsize = 2;
+        it[n].kind = SK_GOOD;
+        snprintf(it[n].name, sizeof it[n].name, "good-read");
+        it[n].rn = rr_build(it[n].raw, &f, false, false);
+        it[n].wn = tcp ? rr_lenprefix(it[n].wire, it[n].raw, it[n].rn) : rr_slip(it[n].wire, it[n].raw, it[n].rn);
+        n++;
+    }
+    /* corrupted write requests, one per fault class; a corrupted read request */
+    static const int FK[] = { FK_HDCRC, FK_RESERVED, FK_PLCRC, FK_LONG, FK_VERSION };
+    for (unsigned k = 0; k < sizeof FK / sizeof *FK; ++k) {
+        const size_t rn = faulted_request(tcp, true, m16, FK[k], it[n].raw);
+        if (rn == 0)
+            continue;
+        it[n].kind = SK_BAD;
+        snprintf(it[n].name, sizeof it[n].name, "write: %s", FKNAME[FK[k]]);
+        it[n].rn = rn;
+        it[n].wn = tcp ? rr_lenprefix(it[n].wire, it[n].raw, rn) : rr_slip(it[n].wire, it[n].raw, rn);
+        n++;
+    }
+    {
+        const size_t rn = faulted_request(tcp, false, m16, tcp ? FK_TYPE : FK_HDCRC, it[n].raw);
+        it[n].kind = SK_BAD;
+        snprintf(it[n].name, sizeof it[n].name, "read: %s", FKNAME[tcp ? FK_TYPE : FK_HDCRC]);
+        it[n].rn = rn;
+        it[n].wn = tcp ? rr_lenprefix(it[n].wire, it[n].raw, rn) : rr_slip(it[n].wire, it[n].raw, rn);
+        n++;
+    }
+    /* channel-level failures while a good write request arrives */
+    static const int SERR[] = { -EIO, -EILSEQ, -EPROTO };
+    for (unsigned k = 0; k < 3; ++k) {
+        it[n].kind = SK_CHAN;
+        snprintf(it[n].name, sizeof it[n].name, "source fails with %d inside a good write", SERR[k]);
+        it[n].wn = good_request(tcp, m16, it[n].wire);
+        it[n].src_err_at = k == 0 ? 3 : k == 1 ? 13 : (long)it[n].wn - 1;
+        it[n].src_err = SERR[k];
+        n++;
+    }
+    it[n].kind = SK_CHAN;
+    snprintf(it[n].name, sizeof it[n].name, tcp ? "stream ends inside a good write" : "escape violation inside a good write");
+    it[n].wn = good_request(tcp, m16, it[n].wire);
+    if (tcp)
+        it[n].wn -= 2;
+    else {
+        it[n].wire[9] = 0xdb;
+        it[n].wire[10] = 0x00;
+        MC_ANCHOR(!lp_slip_may_be_valid(it[n].wire, it[n].wn), "session item: no reading of the escape violation yields a valid frame");
+    }
+    n++;
+    it[n].kind = SK_CHAN;
+    snprintf(it[n].name, sizeof it[n].name, "nothing arrives");
+    it[n].wn = 0;
+    n++;
+    /* receptions that fail for want of memory (no block / frame larger than the block): no frame
+     * is handed over; judged like a channel failure (their replies are C09's subject) */
+    it[n].kind = SK_CHAN;
+    snprintf(it[n].name, sizeof it[n].name, "good write while allocation fails");
+    it[n].wn = good_request(tcp, m16, it[n].wire);
+    it[n].alloc_fails = true;
+    n++;
+    {
+        static unsigned char big[BLOCKSIZE + 40], raw[BLOCKSIZE + 60];
+        struct rframe f;
+        memset(&f, 0, sizeof f);
+        for (size_t i = 0; i < sizeof big; ++i)
+            big[i] = (unsigned char)(i * 5 + 1);
+        f.type = RT_WRITE_REQ;
+        f.options = RO_W16 | (tcp ? 0 : RO_HDCRC | RO_PLCRC);
+        f.seq = 0x7003;
+        f.addr = 0x00000920;
+        f.bsize = sizeof big / 2;
+        f.payload = big;
+        f.plen = sizeof big;
+        const size_t rn = rr_build(raw, &f, false, false);
+        it[n].kind = SK_CHAN;
+        snprintf(it[n].name, sizeof it[n].name, "good write larger than the block");
+        it[n].wn = tcp ? rr_lenprefix(it[n].wire, raw, rn) : rr_slip(it[n].wire, raw, rn);
+        n++;
+    }
+    if (!tcp) {
+        /* an empty frame is a truncation to zero octets: bad header encoding */
+        it[n].kind = SK_BAD;
+        snprintf(it[n].name, sizeof it[n].name, "empty frame");
+        it[n].rn = 0;
+        it[n].wire[0] = 0xc0;
+        it[n].wn = 1;
+        n++;
+    }
+    for (int i = 0; i < n; ++i)
+        if (it[i].src_err == 0)
+            it[i].src_err_at = -1; /* the source delivers what it has */
+    nsitems[tcp] = n;
+}
+
+static void
+part5(void)
+{
+    build_sitems(false);
+    build_sitems(true);
+    for (int sm = 0; sm < (g_th ? 3 : 1); ++sm)
+    for (int tcp = 0; tcp < 2; ++tcp)
+        for (int mode = 0; mode < 4; mode += 2) { /* the sequence is its own history: no served request in front */
+            for (int len = 2; len <= (g_th && sm == 0 ? 4 : 3); ++len) {
+                g_srcmode = sm == 0 ? DRV_SRC_OCTET : sm == 1 ? DRV_SRC_CHUNK : DRV_SRC_CHUNK_GETBUFFER;
+                int seq[4] = { 0, 0, 0, 0 };
+                const int na = nsitems[tcp];
+                for (;;) {
+                    char sd[300];
+                    size_t o = 0;
+                    for (int k = 0; k < len; ++k)
+                        o += (size_t)snprintf(sd + o, sizeof sd - o, "%s[%s]", k ? " " : "", sitems[tcp][seq[k]].name);
+                    if (mc_case("session %s, %s, %s: %s", tcp ? "tcp" : "serial", SMODE[mode], SRCNAME[g_srcmode], sd)) {
+                        memset(n_detected, 0, sizeof n_detected);
+                        n_valid = 0;
+                        session_start(tcp, true, mode);
+                        bool ok = true, hasfail = false;
+                        for (int k = 0; k < len && ok; ++k) {
+                            const struct sitem *x = &sitems[tcp][seq[k]];
+                            char fd[96];
+                            snprintf(fd, sizeof fd, "round %d [%s]", k, x->name);
+                            D.outlen = 0;
+                            D.ncalls = 0;
+                            drv_feed(&D, x->wire, x->wn);
+                            D.src_err_at = x->src_err_at;
+                            D.src_err = x->src_err ? x->src_err : -EIO;
+                            D.fail_mask = x->alloc_fails ? ~0u << (D.allocs > 31 ? 31 : D.allocs) : 0;
+                            struct lp_result r;
+                            lp_round(&D, &g_mf, &r);
+                            mc_trans(3);
+                            if (mc.verbose && mc.active)
+                                mc_log("%s: recv rc=%d error.id=%d process rc=%d calls=%d reply=%zu octets", fd, r.rrc, r.errid, r.prc, r.calls, D.outlen);
+                            if (x->kind == SK_BAD) {
+                                struct rframe rf;
+                                const unsigned vset = frame_vset(tcp, x->raw, x->rn, &rf);
+                                ok = judge(tcp, &rf, vset, &r, false, fd);
+                                hasfail = true;
+                            } else if (x->kind == SK_CHAN) {
+                                unsigned char scratch[DRV_WIRE];
+                                struct rframe reply[8];
+                                bool acked;
+                                hasfail = true;
+                                (void)decode_replies(tcp, 0, D.outlen, true, reply, scratch, &acked);
+                                if (r.calls != 0) {
+                                    mc_fail("C07/never-executed", "%s: no frame was received (recv rc=%d error.id=%d) but %d memory accesses happened (%s addr=%08x)", fd, r.rrc,
+                                            r.errid, r.calls, D.call[0].write ? "write" : "read", D.call[0].addr);
+                                    ok = false;
+                                } else if (acked) {
+                                    mc_fail("C07/never-acknowledged", "%s: no frame was received but an acknowledgement was sent", fd);
+                                    ok = false;
+                                } else if (!drv_balanced(&D)) {
+                                    mc_fail("C07/ledger", "%s: allocator ledger unbalanced (allocs=%d frees=%d live=%d foreign/double releases=%d)", fd, D.allocs, D.frees,
+                                            D.nlive, D.bad_frees);
+                                    ok = false;
+                                }
+                            }
+                        }
+                        lp_release(&D);
+                        mc_end(true, !ok ? "failed" : hasfail ? "session-with-failed-reception" : "session-all-received");
+                    }
+                    int k = len - 1;
+                    while (k >= 0 && ++seq[k] == na)
+                        seq[k--] = 0;
+                    if (k < 0)
+                        break;
+                }
+            }
+        }
+    g_srcmode = DRV_SRC_OCTET;
+}
+
+/* ---- part 6: frames the library itself puts on a serial line -------------------------------- */
+static struct drv E;
+#define NEMIT (12 + 2 * 2 * 12 + 4)
+
+/* emitted frame #k as raw octets; 0 if the library did not emit exactly one frame */
+static size_t
+emit_frame(int k, unsigned char *raw, char *name, size_t nn)
+{
+    static const unsigned char data[8] = { 0x01, 0xc0, 0x02, 0xdb, 0x03, 0x04, 0x05, 0x06 };
+    unsigned char scratch[DRV_WIRE];
+    struct rr_frames fr;
+    if (k < 12) {
+        const int kind = k / 3;
+        const size_t n = (size_t)(k % 3) + 1;
+        drv_init(&E, false, kind & 1, BLOCKSIZE, true);
+        uint16_t w[4];
+        memcpy(w, data, sizeof w);
+        int rc;
+        switch (kind) {
+        case 0: rc = regp_req_read8(&E.p, 0x00c00064, n); break;
+        case 1: rc = regp_req_read16(&E.p, 0x00c00064, n); break;
+        case 2: rc = regp_req_write8(&E.p, 0x00c00064, n, data); break;
+        default: rc = regp_req_write16(&E.p, 0x00c00064, n, w); break;
+        }
+        (void)rc;
+        snprintf(name, nn, "%s request of %zu words", kind == 0 ? "read8" : kind == 1 ? "read16" : kind == 2 ? "write8" : "write16", n);
+    } else if (k >= 12 + 48) {
+        /* what reception itself sends: the two meta messages, the busy and the receive-overflow response */
+        const int j = k - 60;
+        static unsigned char big[BLOCKSIZE + 40], rq[BLOCKSIZE + 60], w[2 * BLOCKSIZE + 130];
+        drv_init(&E, false, true, BLOCKSIZE, true);
+        struct rframe f;
+        memset(&f, 0, sizeof f);
+        f.version = j == 0;
+        f.type = RT_WRITE_REQ;
+        f.options = RO_W16 | RO_HDCRC | RO_PLCRC;
+        f.seq = 0x1357;
+        f.addr = 0x00c00064;
+        f.bsize = j == 3 ? sizeof big / 2 : 2;
+        f.payload = j == 3 ? big : data;
+        f.plen = j == 3 ? sizeof big : 4;
+        const size_t rn = rr_build(rq, &f, j == 1, false);
+        drv_feed(&E, w, rr_slip(w, rq, rn));
+        if (j == 2)
+            E.fail_mask = ~0u;
+        RPMaybeFrame mf;
+        memset(&mf, 0, sizeof mf);
+        struct lp_result r;
+        lp_round(&E, &mf, &r);
+        snprintf(name, nn, "%s", j == 0 ? "meta message: bad header encoding" : j == 1 ? "meta message: bad header checksum" : j == 2 ? "busy response" : "receive-overflow response");
+    } else {
+        const int j = k - 12;
+        const unsigned code = (unsigned)(j % 12);
+        const bool write = (j / 12) & 1, m16 = (j / 24) & 1;
+        drv_init(&E, false, m16, BLOCKSIZE, true);
+        E.verdict = (RPResponse)code;
+        E.verdict_addr = 0x00c0db65;
+        unsigned char rq[32], w[64];
+        struct rframe f;
+        memset(&f, 0, sizeof f);
+        f.type = write ? RT_WRITE_REQ : RT_READ_REQ;
+        f.options = (m16 ? RO_W16 : 0) | RO_HDCRC | (write ? RO_PLCRC : 0);
+        f.seq = 0x2468;
+        f.addr = 0x00c00064;
+        f.bsize = 2;
+        f.payload = data;
+        f.plen = write ? (m16 ? 4 : 2) : 0;
+        const size_t rn = rr_build(rq, &f, false, false);
+        drv_feed(&E, w, rr_slip(w, rq, rn));
+        RPMaybeFrame mf;
+        memset(&mf, 0, sizeof mf);
+        struct lp_result r;
+        lp_round(&E, &mf, &r);
+        snprintf(name, nn, "response to a %s%d request, backend verdict %u", write ? "write" : "read", m16 ? 16 : 8, code);
+    }
+    size_t rn = 0;
+    if (rr_unframe(false, E.out, E.outlen, scratch, &fr) == 1 && fr.len[0] <= 64) {
+        rn = fr.len[0];
+        memcpy(raw, scratch + fr.off[0], rn);
+    }
+    drv_release(&E);
+    g_drv = &D;
+    return rn;
+}
+
+static void
+part6(void)
+{
+    char fd[160], name[96];
+    unsigned char raw[64], x[80];
+    for (int k = 0; k < NEMIT; ++k) {
+        size_t n = 0;
+        bool have = false;
+        for (int fam = 0; fam < 4; ++fam) {
+            static const char *FN[] = { "unmodified", "every single-bit flip", "every two-bit flip inside octets >= 2", "every truncation" };
+            if (!mc_would_run()) {
+                mc_skip_case();
+                continue;
+            }
+            if (!have) {
+                n = emit_frame(k, raw, name, sizeof name);
+                have = true;
+                drv_init(&D, false, true, BLOCKSIZE, true);
+            }
+            if (!mc_case("emitted#%d (%s), as the library put it on a serial line: %s", k, name, FN[fam]))
+                continue;
+            reset_counts();
+            if (n == 0) {
+                mc_end(false, "nothing-emitted"); /* emission is C08's subject */
+                continue;
+            }
+            const size_t nbits = n * 8;
+            bool ok = true;
+            g_escape_mode = 3;
+            if (fam == 0) {
+                ok = run_frame(false, raw, n, false, "unmodified");
+            } else if (fam == 1) {
+                for (size_t t = 0; t < nbits && ok; ++t) {
+                    memcpy(x, raw, n);
+                    flipbit(x, t);
+                    snprintf(fd, sizeof fd, "bit %zu flipped", t);
+                    ok = run_frame(false, x, n, true, fd);
+                }
+            } else if (fam == 2) {
+                for (size_t t1 = 16; t1 < nbits && ok; ++t1)
+                    for (size_t t2 = t1 + 1; t2 < nbits && ok; ++t2) {
+                        memcpy(x, raw, n);
+                        flipbit(x, t1);
+                        flipbit(x, t2);
+                        snprintf(fd, sizeof fd, "bits %zu and %zu flipped", t1, t2);
+                        ok = run_frame(false, x, n, true, fd);
+                    }
+            } else {
+                for (size_t len = 0; len < n && ok; ++len) {
+                    snprintf(fd, sizeof fd, "truncated to %zu octets", len);
+                    ok = run_frame(false, raw, len, true, fd);
+                }
+            }
+            g_escape_mode = 0;
+            mc_end(true, !ok ? "failed" : fam == 0 ? (n_valid ? "emitted-accepted" : "emitted-classified") : outcome_of(true));
+        }
+    }
+}
+
 int
 main(int argc, char **argv)
 {
@@ -486,11 +1188,16 @@ main(int argc, char **argv)
     part1();
     part2();
     drv_release(&D);
+    part3();
+    part4();
+    part5();
+    part6();
     if (mc.only < 0 && n_skipped_valid > 0)
         mc_cap("%ld corrupted frames were valid by the reference itself (undetectable, skipped)", n_skipped_valid);
-    char bound[300];
-    snprintf(bound, sizeof bound, "%d corpus frames x (all 1-bit flips, all 2-bit flips in octets>=2, all bursts of span 2..%s at every bit offset >= 16 in transmission order, all truncations, 9 extensions); generated: 2 transports x 3 versions x 16 types x 16 option patterns x 16 meta x block size {0,1,2, sizes wrapping in 32 bits} x payload length {n-1,n,n+1} x checksums right/wrong x header cuts",
-             ncorpus, g_th ? "16 (every pattern)" : "9 (every pattern) and solid runs up to 16");
+    char bound[1400];
+    snprintf(bound, sizeof bound, "%d corpus frames x (all 1-bit flips, all 2-bit flips in octets>=2, all bursts of span 2..%s at every bit offset >= 16 in transmission order, all truncations, 9 extensions); generated: 2 transports x 3 versions x 16 types x 16 option patterns x 16 meta x block size {0,1,2 with payload n-1,n,n+1; 23 sizes straddling 2^7,2^8,2^15,2^16,2^31,2^32 with payload 0..7 octets} x checksums right/wrong x header cuts; line faults: corpus x (every 1-bit flip of the SLIP stream%s, every cut, every lost/duplicated octet) x {indeterminate RPMaybeFrame, after a served request} x {heap, pool allocator}, documented loop until the stream is used up%s; unsendable replies: 8 fault kinds x read/write x 8/16 x transports x sink failure at reply octet 0..23 x 3 error codes x 4 session modes; sessions: every sequence of 2..%d receptions out of %d (serial) / %d (tcp) items (good requests, corrupted frames of every class, channel failures) x heap/pool%s; emitted: %d frame kinds the library emits on a serial line x (1-bit flips, 2-bit flips in octets>=2, truncations)",
+             ncorpus, g_th ? "16 (every pattern)" : "9 (every pattern) and solid runs up to 16", g_th ? ", every 2-bit flip after a served request" : "", g_th ? ", 1-bit flips/cuts with octet, chunk and getbuffer sources" : "", g_th ? 4 : 3,
+             nsitems[0], nsitems[1], g_th ? ", sequences of 2..3 also with chunk and getbuffer sources" : "", NEMIT);
     mc_finish(true, bound);
     return 0;
 }
